@@ -969,6 +969,10 @@ func (s *SwapService) ResendLastMessage(swapId string) error {
 	if err != nil {
 		return err
 	}
+	// The action reads (and on failure writes) the swap data, which the
+	// swap's state machine changes under its mutex.
+	swap.mutex.Lock()
+	defer swap.mutex.Unlock()
 	action := &SendMessageAction{}
 	event := action.Execute(s.swapServices, swap.Data)
 	if event == Event_ActionFailed {
